@@ -1,5 +1,5 @@
 """C06 Event handlers run one at a time, depth-first, in the documented order."""
-from mirlib import AnchorMissing, edge_label, switch_desc, describe_call, describe_operand, describe_place, describe_rvalue, dom_guards, guards, _suffix_match
+from mirlib import op_place, AnchorMissing, edge_label, switch_desc, describe_call, describe_operand, describe_place, describe_rvalue, dom_guards, guards, _suffix_match
 from rules.common import named_argument_rule, aggregates, callers_by_name, owner_def, where
 
 META = {
@@ -477,3 +477,39 @@ def run(ctx):
         b = ctx.saw(cl[0])
         we = [c for c in b.calls if c.via_name == "write_event"]
         write_back_table(r, b, we[0])
+
+    with ctx.rule("C06.R11", "T5", "an item's lifecycle handlers are looked up under the item's lifecycle name (the id -> name table handed to run_handler)", floor=1) as r:
+        # run_handler turns the id of a modified item into a name and asks the lifecycle for `item_event(name)`. The table it uses is filled from the
+        # item specs: the name must be `ItemSpec::lifecycle_name` (the field name the lifecycle was derived for), not the external name of the lane,
+        # which differs for every renamed lane (`#[item(name = ..)]`, a naming convention) - for those the lookup would find nothing and the lane's
+        # on_event / on_set and everything they trigger would silently never run.
+        inits = [b for b in ag.all_bodies() if "agent_model::AgentModel" in b.defpath and "initialize_agent" in b.defpath]
+        if not inits:
+            raise AnchorMissing("AgentModel::initialize_agent")
+        n = 0
+        for b in inits:
+            pairs = []
+            for i, j, p_, rv, line in b.assigns():
+                if rv[0] == "agg" and rv[1].get("tuple") and len(rv[2]) == 2 and b.locals[p_[0]].replace(" ", "").startswith("(u64,swimos_model::text::Text)"):
+                    pairs.append((rv[2][0], rv[2][1], line))
+            for c in b.calls:
+                if c.name == "insert" and len(c.args) == 3 and "HashMap" in (c.callee.get("self_ty") or c.defpath or ""):
+                    k_ty = b.locals[op_place(c.args[1])[0]] if op_place(c.args[1]) is not None else ""
+                    v_ty = b.locals[op_place(c.args[2])[0]] if op_place(c.args[2]) is not None else ""
+                    if k_ty == "u64" and v_ty.endswith("text::Text"):
+                        pairs.append((c.args[1], c.args[2], c.line))
+            for k_op, v_op, line in pairs:
+                kd = describe_operand(b, k_op)
+                # the key is the id of a static item spec
+                k_src = b.sources(k_op, stop_at_calls=False)
+                if not (kd.endswith(".id") and any(x[0] == "field" and x[1].has_field("ItemSpec", "id") for x in k_src)):
+                    continue
+                ctx.saw(b)
+                n += 1
+                v_src = b.sources(v_op, stop_at_calls=False)
+                good = any(x[0] == "field" and x[1].has_field("ItemSpec", "lifecycle_name") for x in v_src)
+                r.check(good, "initialize_agent/id->name/uses-lifecycle_name", b.loc(line), "the name recorded for a spec's id is its lifecycle_name",
+                        "the name recorded for the id of an item spec is `%s`, not the spec's lifecycle_name: for a lane whose external name differs from its field name run_handler finds no lifecycle handlers - the lane is set and written, but its on_event / on_set and their consequences never run" % describe_operand(b, v_op)[:60])
+        if n < 1:
+            raise AnchorMissing("initialize_agent: the id -> lifecycle name entries built from the item specs")
+
